@@ -34,10 +34,12 @@ def wf_emd(slot, program='emdfile', user='', user_names=()):
     return None
 
 
-def bundle(b, where):
+def bundle(b, where, user_names=()):
     if b[0] != 'G' or A(b).get('emd_group_type') != ('s', 'metadatabundle'):
         return f'{where}/metadatabundle is not a tagged bundle'
     for k, m in b[2]:
+        if k.startswith('_tmp_') and k not in user_names:
+            return f'{where}/metadatabundle: scratch entry {k!r} left behind'
         if m[0] != 'G' or A(m).get('emd_group_type') != ('s', 'metadata') or 'python_class' not in A(m):
             return f'{where}/metadatabundle/{k} is not a tagged metadata group'
         e = items(m, f'{where}/metadatabundle/{k}')
@@ -91,7 +93,7 @@ def node(g, where, user_names, is_root=False):
             return f'{where}: scratch group {k!r} left behind'
         if c[0] == 'G':
             if k == 'metadatabundle':
-                e = bundle(c, where)
+                e = bundle(c, where, user_names)
             else:
                 ct = A(c).get('emd_group_type', (None, None))[1]
                 if ct is None:
